@@ -37,6 +37,10 @@ Definition debit_new_go_orig (b amt t : N) : option N :=
 (* repaired: additionally CASH when s.Balance < at *)
 Definition debit_new_go (b amt t : N) : option N :=
   let nb := (b + two64 - amt) mod two64 in if (b <? amt) || (nb <? t) then None else Some nb.
+(* a tempting 'simplification' of the repaired test: one comparison s.Balance < at + minBalance, the sum taken in
+   uint64 (wraps when the caller's threshold is within a_t of 2^64 or saturated) *)
+Definition debit_new_go_sum (b amt t : N) : option N :=
+  if b <? (amt + t) mod two64 then None else Some ((b + two64 - amt) mod two64).
 (* transfer: b := Balance - a; CASH iff b < minBalance || Balance < a *)
 Definition debit_xfer_go (b amt t : N) : option N :=
   let nb := (b + two64 - amt) mod two64 in if (nb <? t) || (b <? amt) then None else Some nb.
